@@ -390,12 +390,14 @@ type kind struct {
 }
 
 var kinds = []kind{
-	{"S", func(i int) string { return head(i, 40+i) + "\n" }},                                                            // single line
-	{"M", func(i int) string { return head(i, 40) + "\n" + fmt.Sprintf(" at line%d", i) + "\n" }},                        // one continuation
-	{"N", func(i int) string { return head(i, 40) + "\n" + fmt.Sprintf(" c%d-1", i) + "\n" + fmt.Sprintf("\tc%d-2", i) + "\n" }}, // two continuations
-	{"G", func(i int) string { return head(i, 41) + "\n" + fmt.Sprintf("<13>1 garbage%d", i) + "\n" }},                   // garbage line shaped like a head prefix
-	{"E", func(i int) string { return head(i, 42) + "\n\n" }},                                                            // empty line after the record
-	{"X", func(i int) string { return head(i, 40) + "\n\n" + fmt.Sprintf("x%d", i) + "\n" }},                             // empty line inside a multi-line record
+	{"S", func(i int) string { return head(i, 40+i) + "\n" }},                                     // single line
+	{"M", func(i int) string { return head(i, 40) + "\n" + fmt.Sprintf(" at line%d", i) + "\n" }}, // one continuation
+	{"N", func(i int) string {
+		return head(i, 40) + "\n" + fmt.Sprintf(" c%d-1", i) + "\n" + fmt.Sprintf("\tc%d-2", i) + "\n"
+	}}, // two continuations
+	{"G", func(i int) string { return head(i, 41) + "\n" + fmt.Sprintf("<13>1 garbage%d", i) + "\n" }}, // garbage line shaped like a head prefix
+	{"E", func(i int) string { return head(i, 42) + "\n\n" }},                                          // empty line after the record
+	{"X", func(i int) string { return head(i, 40) + "\n\n" + fmt.Sprintf("x%d", i) + "\n" }},           // empty line inside a multi-line record
 }
 
 var prefixes = []struct{ code, text string }{
@@ -446,6 +448,7 @@ type runner struct {
 	ctx    *seq.Ctx
 	scaled *driver
 	prod   *driver
+	seen   map[string]bool // violation keys already described in this process (seq keeps the first message per key)
 }
 
 // runCase evaluates one (stream, cuts, mask) under one size profile.
@@ -459,37 +462,43 @@ func (r *runner) runCase(d *driver, reuse bool, s *stream, cuts []int, mask uint
 	id := fmt.Sprintf("%s/%s/cuts%v/flush%b", d.sz.name, s.name, cc, mask)
 	ctx.Case(id, len(cc) > 0 || mask != 0, "", func() (string, string) {
 		units, flushAt, wedge := d.run(s.text, cc, mask, reuse)
-		desc := func() string {
-			return fmt.Sprintf("sizes=%s stream=%q cuts=%v flushes after fragments (bitmask, bit i = after fragment i)=%b\n  emitted  %s\n  reference %s",
-				d.sz.name, s.text, cc, mask, show(units), show(s.records))
-		}
-		if wedge != "" {
-			return "wedge:" + wedge, desc()
-		}
-		if overLimit {
-			if k, m := checkWeak(s, units, d.sz.softLimit); k != "" {
-				return k, m + "\n  " + desc()
-			}
+		key, msg := judge(d, s, units, flushAt, wedge, mask, overLimit)
+		if key == "" {
 			return "", ""
 		}
-		if mask == 0 {
-			if !checkEqual(s, units, false) {
-				return "noflush:record-sequence-differs", "without any flush the records must equal the reference for every fragmentation\n  " + desc()
-			}
-		} else if s.singleLine {
-			if !checkEqual(s, units, true) {
-				return "singleline-flush:record-sequence-differs", "a stream of single-line records must be framed identically under every flush placement\n  " + desc()
-			}
+		if r.seen[key] { // seq keeps the first message per key: do not format millions of them when a regression breaks everything
+			return key, ""
 		}
-		if k, m := checkMapping(s, units, flushAt); k != "" {
-			pfx := "flush:"
-			if mask == 0 {
-				pfx = "noflush:"
-			}
-			return pfx + k, m + "\n  " + desc()
-		}
-		return "", ""
+		r.seen[key] = true
+		return key, msg + fmt.Sprintf("\n  sizes=%s stream=%q cuts=%v flushes after fragments (bitmask, bit i = after fragment i)=%b\n  emitted  %s\n  reference %s",
+			d.sz.name, s.text, cc, mask, show(units), show(s.records))
 	})
+}
+
+// judge applies the oracles to the outcome of one case.
+func judge(d *driver, s *stream, units []string, flushAt []int, wedge string, mask uint, overLimit bool) (string, string) {
+	if wedge != "" {
+		return "wedge:" + wedge, "the reader could not take the next fragment"
+	}
+	if overLimit {
+		return checkWeak(s, units, d.sz.softLimit)
+	}
+	if mask == 0 {
+		if !checkEqual(s, units, false) {
+			return "noflush:record-sequence-differs", "without any flush the records must equal the reference for every fragmentation"
+		}
+	} else if s.singleLine {
+		if !checkEqual(s, units, true) {
+			return "singleline-flush:record-sequence-differs", "a stream of single-line records must be framed identically under every flush placement"
+		}
+	}
+	if k, m := checkMapping(s, units, flushAt); k != "" {
+		if mask == 0 {
+			return "noflush:" + k, m
+		}
+		return "flush:" + k, m
+	}
+	return "", ""
 }
 
 // allCuts enumerates all k-cut fragmentations (k strictly increasing cut offsets in 1..len-1) x all 2^(k+1) flush masks.
@@ -524,7 +533,7 @@ func (r *runner) stream(d *driver, reuse bool, s *stream, maxCuts int) {
 
 func enumerate(ctx *seq.Ctx) {
 	prodSizes := sizes{"prod", defs.ListenerLineBufferSize, defs.InputLogMaxRecordBytes}
-	r := &runner{ctx: ctx,
+	r := &runner{ctx: ctx, seen: map[string]bool{},
 		scaled: &driver{sz: sizes{"scaled", 192, 64}},
 		prod:   &driver{sz: prodSizes},
 	}
